@@ -27,6 +27,26 @@ type c07Params struct {
 	Resumed bool `json:"resumed"`
 	Policy1 int  `json:"policy1"`
 	Seg     int  `json:"seg"`
+	// Changed (resumed cases): what else differs in the configuration the session is offered to - "cas": its
+	// client roots are another CA, "time": its clock reads 2046, after the end of every client certificate
+	Changed string `json:"changed,omitempty"`
+	// SrvSkip: the server's configuration has InsecureSkipVerify set (a client-side option; it must not switch
+	// off the verification of client certificates)
+	SrvSkip bool `json:"srv_skip,omitempty"`
+}
+
+// c07Recorded: how a certificate behaviour looks to a configuration that differs as Changed says.
+func c07Seen(b, changed string) string {
+	switch b {
+	case "trusted", "wrong-eku", "late", "recent", "expired":
+		switch changed {
+		case "cas":
+			return "untrusted"
+		case "time":
+			return "expired"
+		}
+	}
+	return b
 }
 
 var c07Behaviours = []string{"none", "trusted", "untrusted", "expired", "wrong-eku", "cv-missing", "cv-wrong-key", "cv-other-transcript", "enc-cert-first-cv-missing", "recent", "late"}
@@ -34,7 +54,7 @@ var c07Behaviours = []string{"none", "trusted", "untrusted", "expired", "wrong-e
 func (c07) ID() string    { return "C07" }
 func (c07) Level() string { return "fault_enumeration" }
 func (c07) Rule() string {
-	return "enumerates six ClientAuth policies x client behaviours (no certificate, trusted, untrusted CA, expired, expired only at the configured time (not on the wall clock), in date only at the configured time, wrong extended key usage, encryption certificate first without CertificateVerify, certificate with CertificateVerify missing / made with another key / over another transcript) x ECC and ECDHE suites (GCM and CBC) x both stacks for full handshakes, and (policy of the original handshake) x (policy now in force) x behaviour for resumed handshakes over configurations sharing the session cache; after every refused full handshake the client offers that handshake's session id with the master secret it computed (must not be resumed); thorough repeats under many seeds. A scripted client on the independent reference implementation plays the behaviour against a real server. The expected outcome comes from a model of the ClientAuthType documentation plus the standard's rule that ECDHE needs the client certificates. distinct = distinct (stack, suite, policies, behaviour, resumed); non-trivial = the server reached the point where the behaviour matters"
+	return "enumerates six ClientAuth policies x client behaviours (no certificate, trusted, untrusted CA, expired, expired only at the configured time (not on the wall clock), in date only at the configured time, wrong extended key usage, encryption certificate first without CertificateVerify, certificate with CertificateVerify missing / made with another key / over another transcript) x ECC and ECDHE suites (GCM and CBC) x both stacks for full handshakes, and (policy of the original handshake) x (policy now in force) x behaviour for resumed handshakes over configurations sharing the session cache (also: same policy but other client roots, or a clock past the certificates' end); the verifying policies also with InsecureSkipVerify set on the server's configuration; after every refused full handshake the client offers that handshake's session id with the master secret it computed (must not be resumed); thorough repeats under many seeds. A scripted client on the independent reference implementation plays the behaviour against a real server. The expected outcome comes from a model of the ClientAuthType documentation plus the standard's rule that ECDHE needs the client certificates. distinct = distinct (stack, suite, policies, behaviour, resumed); non-trivial = the server reached the point where the behaviour matters"
 }
 func (c07) Components() (real, stub []string) {
 	return []string{"tlcp/dtlcp server (instrumented): certificate request, processCertsFromClient, CertificateVerify check, resumption, session cache"},
@@ -56,6 +76,26 @@ func c07Cases() []c07Params {
 				for pol := 0; pol < 6; pol++ {
 					for _, b := range c07Behaviours {
 						c07List = append(c07List, c07Params{Stack: st, Suite: su, Policy: pol, Behaviour: b})
+					}
+				}
+			}
+			// the verifying policies once more with InsecureSkipVerify set on the server's configuration
+			for _, su := range []uint16{ECC_GCM, ECDHE_CBC} {
+				for pol := 3; pol < 6; pol++ {
+					for _, b := range []string{"trusted", "untrusted", "expired", "wrong-eku", "recent"} {
+						c07List = append(c07List, c07Params{Stack: st, Suite: su, Policy: pol, Behaviour: b, SrvSkip: true})
+					}
+				}
+			}
+			// resumed under the same policy by a configuration with other client roots / a later clock
+			for _, su := range []uint16{ECC_GCM, ECDHE_CBC} {
+				for pol := 1; pol < 6; pol++ {
+					for _, ch := range []string{"cas", "time"} {
+						for _, b := range []string{"trusted", "wrong-eku", "late"} {
+							if c07Model(pol, b, su) {
+								c07List = append(c07List, c07Params{Stack: st, Suite: su, Policy: pol, Policy1: pol, Behaviour: b, Resumed: true, Changed: ch})
+							}
+						}
 					}
 				}
 			}
@@ -160,18 +200,31 @@ func (c07) Run(c *Case, src *vs.Src) *Result {
 	}
 	r.Sample = p
 	sigp := fmt.Sprintf("C07 %s %s pol=%d %s", p.Stack, SuiteName(p.Suite), p.Policy, p.Behaviour)
+	if p.SrvSkip {
+		sigp += " srv-skip-verify"
+	}
+	if p.Changed != "" {
+		sigp += " changed=" + p.Changed
+	}
 	if p.Resumed {
 		sigp += fmt.Sprintf(" resumed-from-pol=%d", p.Policy1)
 	}
 	var tcache tlcp.SessionCache = tlcp.NewLRUSessionCache(8)
 	var dcache dtlcp.SessionCache = dtlcp.NewLRUSessionCache(8)
 	base := c07Cert(p.Behaviour)
+	changed := ""
 	run := func(seedOff uint64, policy int, offer []byte, master []byte) *c07Conn {
 		w := NewWorld(c.Seed+seedOff, src)
 		w.K.MaxElapsed = 30 * time.Second
 		env := NewEnv(w)
 		env.TCaches["s"], env.DCaches["s"] = tcache, dcache
-		sc := &EPConf{Suites: []uint16{p.Suite}, Certs: []string{"server_sig", "server_enc"}, Auth: policy, ClientCAs: []string{"ca1"}, Cache: "s"}
+		sc := &EPConf{Suites: []uint16{p.Suite}, Certs: []string{"server_sig", "server_enc"}, Auth: policy, ClientCAs: []string{"ca1"}, Cache: "s", SkipVerify: p.SrvSkip}
+		switch changed {
+		case "cas":
+			sc.ClientCAs = []string{"ca2"}
+		case "time":
+			sc.TimeYear = 2046
+		}
 		h := NewHalf(p.Stack, env, sc, false, "server")
 		if h.Pipe != nil {
 			h.Pipe.S.Seg = p.Seg
@@ -240,7 +293,7 @@ func (c07) Run(c *Case, src *vs.Src) *Result {
 		w.Finish(r, sigp)
 		return co
 	}
-	r.Key = hashKey(p.Stack, p.Suite, p.Policy, p.Policy1, p.Behaviour, p.Resumed)
+	r.Key = hashKey(p.Stack, p.Suite, p.Policy, p.Policy1, p.Behaviour, p.Resumed, p.Changed, p.SrvSkip)
 	var co *c07Conn
 	if p.Resumed {
 		first := run(0, p.Policy1, nil, nil)
@@ -248,6 +301,7 @@ func (c07) Run(c *Case, src *vs.Src) *Result {
 			r.Violate("setup", sigp+" setup-failed", "the original handshake under policy %d failed: %v (%s); client sent %v", p.Policy1, first.SrvErr, first.Reason, first.Sent)
 			return r
 		}
+		changed = p.Changed
 		co = run(1, p.Policy, first.SID, first.Master)
 	} else {
 		co = run(0, p.Policy, nil, nil)
@@ -263,7 +317,11 @@ func (c07) Run(c *Case, src *vs.Src) *Result {
 	if p.Resumed && p.Policy1 == 0 && !IsECDHE(p.Suite) {
 		recorded = "none"
 	}
-	allowedFull := c07Model(p.Policy, p.Behaviour, p.Suite)
+	seen := c07Seen(p.Behaviour, p.Changed)
+	if recorded != "none" {
+		recorded = c07Seen(recorded, p.Changed)
+	}
+	allowedFull := c07Model(p.Policy, seen, p.Suite)
 	r.Outcome = fmt.Sprintf("completed=%v resumed=%v", completed, co.SrvCS.Resumed)
 	switch {
 	case completed && co.SrvCS.Resumed && !c07Model(p.Policy, recorded, p.Suite):
@@ -281,7 +339,7 @@ func (c07) Run(c *Case, src *vs.Src) *Result {
 				r.Violate("peer-certs-unproven", sigp+" peer-certs-without-proof", "server reports %d peer certificates for behaviour %q", len(co.SrvCS.Peer), p.Behaviour)
 			}
 		}
-		if co.SrvCS.Verified > 0 && !(p.Behaviour == "trusted" || p.Behaviour == "late" || (p.Behaviour == "wrong-eku" && (p.Policy == 5 || (p.Resumed && p.Policy1 == 5)))) {
+		if co.SrvCS.Verified > 0 && !((p.Behaviour == "trusted" && seen == "trusted") || (p.Behaviour == "late" && seen == "late") || (p.Behaviour == "wrong-eku" && (p.Policy == 5 || (p.Resumed && p.Policy1 == 5)))) {
 			r.Violate("verified-chains", sigp+" verified-chains-unbacked", "server reports verified chains for behaviour %q", p.Behaviour)
 		}
 		if !co.GotApp {
